@@ -122,7 +122,7 @@ def run(ctx):
 # delayed directory cleanup (ServerManager.CleanupHlsIfNeeded) against the life of the Group of the name
 
 CLEANUP_FRAG_MS = 300          # fragment_duration_ms; the timer runs 300 * (fragment_num 2 + delete_threshold 1) = 900 ms
-CLEANUP_TAGS = ["LiveSpared", "Listed", "panic", "notEnabled", "group", "muxer", "dir", "playlist", "listedEpoch",
+CLEANUP_TAGS = ["neighbour", "LiveSpared", "Listed", "panic", "notEnabled", "group", "muxer", "dir", "playlist", "listedEpoch",
                 "listedCount", "segmentFiles", "listedSegmentMissing"]
 
 
@@ -179,17 +179,21 @@ def run_cleanup(ctx):
 
     scen, seen = [], set()
 
-    def add(mode, steps, src):
-        key = (mode, tuple(s["name"] for s in steps))
+    def add(mode, steps, src, https=False):
+        # https: HLS is switched on by hls.enable_https alone (hls.enable false).  Which of the two flags switches it on makes
+        # no difference to the life of the muxer, so the model has no variable for it.  Replayed for cleanup_mode 0 only:
+        # CleanupHlsIfNeeded looks at hls.enable alone, an https-only server never removes a directory - nothing C10 states
+        key = (mode, https, tuple(s["name"] for s in steps))
         if key in seen or not steps:
             return
         seen.add(key)
-        scen.append({"sc": len(scen), "src": src, "mode": mode, "fragMs": CLEANUP_FRAG_MS,
+        scen.append({"sc": len(scen), "src": src, "mode": mode, "fragMs": CLEANUP_FRAG_MS, "https": https,
                      "steps": [{"name": s["name"], "race": bool(s.get("race"))} for s in steps]})
 
     for d in CLEANUP_DIRECTED:
         for mode in (1, 2, 0):
             add(mode, [s for s in _steps(d) if mode != 0 or s["name"] != "TimerFire"], "directed")
+        add(0, [s for s in _steps(d) if s["name"] != "TimerFire"], "directed", https=True)
     ndir = len(scen)
     # edge cover of the small configuration.  The mode is part of the state: one graph for mode 0 (no timers) and one
     # for mode 1, whose graph is the graph of mode 2 as well (the two differ inside the muxer only)
@@ -207,8 +211,10 @@ def run_cleanup(ctx):
             ps = ctx.rng.sample(ps, max(1, len(ps) // 3))
         if not q and len(ps) > 900:
             ps = ctx.rng.sample(ps, 900)
-        for p in ps:
+        for k, p in enumerate(ps):
             add(mode, p, emit_cfg)
+            if mode == 0 and (not q or k % 3 == ctx.seed % 3):
+                add(0, p, emit_cfg, https=True)
     ncover = len(scen) - ndir
     bs = behaviours(res["sim"])
     for b in bs:
